@@ -681,6 +681,35 @@ async def notify_case(case, r: R):
         for bb in bearers:
             bb.pairing.close(r, hs.ctx)
             bb.pairing.expected_server_initiated = 0
+        # --- a single indication confirmed twice in a row -----------------------------------
+        # (no further indication is queued, so the surplus confirmation cannot be mistaken for
+        # the confirmation of a later one: it is a confirmation and must get nothing)
+        if indicating and rng.random() < 0.6:
+            for bb in bearers:
+                bb.pairing.expected_server_initiated = 1 if bb in indicating else 0
+            hs.ctx = 'one indicate_subscribers, each indication confirmed twice back to back'
+            t = asyncio.ensure_future(server.indicate_subscribers(m.obj, ra.marker_value(m.index, 5)))
+            for _round in range(len(bearers) + 3):
+                await hs.rg.quiesce()
+                await asyncio.sleep(0.2)
+                await hs.rg.quiesce()
+                pending = [b for b in indicating if b.pairing.outstanding_indications > 0]
+                if not pending:
+                    break
+                for b in pending:
+                    b.send(ra.confirmation(), 'valid')
+                    b.send(ra.confirmation(), 'duplicate-confirmation')
+                    trail.append((b.kind, ra.HANDLE_VALUE_CFM, 'duplicate-confirmation'))
+                    r.ev('confirmations_sent')
+                    r.ev('duplicate_confirmations_sent')
+            done, not_done = await asyncio.wait([t], timeout=100)
+            if not_done:
+                r.bad('indicate/api-hang', f'indicate call pending 100 virtual s after its indication was confirmed; {hs.ctx}')
+                t.cancel()
+            await hs.settle()
+            for bb in bearers:
+                bb.pairing.close(r, hs.ctx)
+                bb.pairing.expected_server_initiated = 0
     await eatt_exchange_mtu_probe(hs, Gen(rng, hs, enc, auth), rng, trail, r)
     await hs.finish()
     finish_case(case, r, hs, bearers, trail, info, enc, auth)
